@@ -80,11 +80,37 @@ class StepShape:
             st = q.body.blocks[d[1]].stmts[d[2]]
             e = strip(q.ev.rvalue(st.rv, (d[1], d[2])))
         names = []
+        self.zip_partner = None
         while e[0] == "call" and e[2] and (e[4] in ADAPTERS or e[4] in ("into_iter", "iter", "iter_mut", "enumerate", "by_ref")):
             names.append(e[4])
+            if e[4] == "zip" and len(e[2]) == 2 and self.T is not None:
+                # `clock_values.zip(batch)`: the batch may be either operand; remember the other one and which tuple
+                # component carries the batch item
+                def leads_to_T(x):
+                    while x[0] == "call" and x[2] and x[4] in ("into_iter", "iter", "iter_mut", "by_ref"):
+                        x = x[2][0]
+                    return x == ("local", self.T)
+                if not leads_to_T(e[2][0]) and leads_to_T(e[2][1]):
+                    self.zip_partner = (e[2][0], "1")
+                    e = e[2][1]
+                    continue
+                self.zip_partner = (e[2][1], "0")
             e = e[2][0]
         names.append(e)
         return names
+
+    def zip_clock(self, start):
+        """the loop pairs the batch with the unbounded range `start..` (element i = start + i): returns the tuple component
+        (as a string) that carries the batch ITEM, or None"""
+        zp = getattr(self, "zip_partner", None)
+        if zp is None:
+            return None
+        p = zp[0]
+        while p[0] == "call" and p[2] and p[4] in ("into_iter", "iter"):
+            p = p[2][0]
+        if p[0] == "agg" and p[1] == "adt" and p[2].split("::")[-1] == "RangeFrom" and len(p[3]) == 1 and p[3][0] == start:
+            return zp[1]
+        return None
 
     def item(self, *path):
         """expression `(next as Some).0.<path>` of the processing loop"""
